@@ -377,7 +377,8 @@ func checkPair(res *pairResult, st *oracleStats) []failure {
 		}
 		// A client that gives up on content the muxer produced does not "reproduce the written stream" (the
 		// property's title); the clauses of the statement constrain only what is delivered, so this class is
-		// reported under its own signature, restricted to the error that names the content.
+		// reported under its own signature, restricted to the error that names the content (finding F21,
+		// fixed by d590576 + c9db2ec: kept as a regression check).
 		if strings.Contains(cr.Outcome, "could not find data of leading track") {
 			fail(cr.Attempt, "C09:"+vn+":client-abort:could-not-find-data-of-leading-track",
 				"%s muxer with tracks %v (part-min %d ms), client pointed at %s: after OnTracks the client stopped with %q on a part / segment the muxer served",
